@@ -362,7 +362,13 @@ func (h *handler) handleMessage(ctx context.Context, msg hwebsocket.Msg, respond
 }
 
 func (h *handler) disconnect(err error) {
-	h.disconnectChan <- err
+	select {
+	case h.disconnectChan <- err:
+	default:
+		// Disconnections are already pending and one is enough to end the
+		// connection. Blocking here would wedge the main loop, which is the
+		// only reader of the channel and also reports failures through it.
+	}
 }
 
 func (h *handler) handleDisconnect(err error) {
